@@ -20,10 +20,12 @@ func TestC08WholePackets(t *testing.T) {
 		if rapid.IntRange(0, 9).Draw(rt, "connectFault") == 0 {
 			d := rapid.IntRange(0, 26).Draw(rt, "connectCut")
 			kind := rapid.SampledFrom([]int{sim.WTimeoutProgress, sim.WTimeout, sim.WReset}).Draw(rt, "connectKind")
-			h.NextConnOpts = func(c *sim.Conn) {
-				c.ArmWriteLocked(sim.WFault{Off: d, Kind: kind})
-				h.NextConnOpts = nil
-			}
+			h.WithLock(func() {
+				h.NextConnOpts = func(c *sim.Conn) {
+					c.ArmWriteLocked(sim.WFault{Off: d, Kind: kind})
+					h.NextConnOpts = nil
+				}
+			})
 			h.Act("armWrite next-conn off=%d kind=%s", d, wfaultNames[kind])
 		}
 		h.appStep("first connect")
@@ -109,7 +111,7 @@ func TestC08WholePackets(t *testing.T) {
 			},
 			"brokerSend": func(rt *rapid.T) {
 				c := h.Current()
-				if c == nil || !c.State.Accepted {
+				if c == nil || !c.Accepted() {
 					rt.Skip("no accepted connection")
 				}
 				h.brokerSend(byte(rapid.IntRange(0, 2).Draw(rt, "qos")), rapid.IntRange(0, 40).Draw(rt, "len"))
